@@ -24,7 +24,7 @@ REAL_VS_STUB = {
     'stub': ['multiprocessing.Lock and RawValue (shared-memory stub under the scheduler)', 'choice of which process runs', 'fault injection (KILL, RAISE, FORK_FAIL, ALLOC_FAIL, BOMB)'],
 }
 
-EXPR_FAMILIES = ['P1', 'P2', 'P3', 'P4', 'P5', 'P6', 'P7', 'P9', 'P10', 'P14', 'P15', 'P15']
+EXPR_FAMILIES = ['P1', 'P2', 'P3', 'P4', 'P5', 'P6', 'P7', 'P9', 'P10', 'P14', 'P15', 'P15', 'P16', 'P17', 'P18', 'P19', 'P20']
 YIELD_KINDS = {K[k] for k in ('FORK', 'EXIT', 'WAIT', 'KILLSIG', 'ACQ', 'REL', 'RGET', 'RSET', 'LINE')}
 
 
@@ -101,7 +101,7 @@ def gen_case(rng, index, tier):
 
 def gen_fem(rng):
     return dict(family='P11', mesh=rng.choice(['line', 'quad', 'tri']), nelems=rng.choice([2, 3, 4, 6, 8]) if True else 2,
-                what=rng.choice(['integrate', 'integrate_vec', 'eval', 'sparse', 'integrate_multi']), degree=rng.choice([1, 2]), btype=rng.choice(['std', 'spline', 'discont']))
+                what=rng.choice(['integrate', 'integrate_vec', 'eval', 'sparse', 'integrate_multi', 'boundary', 'interfaces', 'two_samples', 'system', 'refined', 'project']), degree=rng.choice([1, 2]), btype=rng.choice(['std', 'spline', 'discont']))
 
 
 def gen_locate(rng):
@@ -157,8 +157,38 @@ def make_call(case):
         elif what == 'eval':
             smp = topo.sample('gauss', deg)
             call = lambda: smp.eval([basis, x])
-        else:
+        elif what == 'sparse':
             call = lambda: function.eval(function.as_csr(topo.integral(basis[:, numpy.newaxis] * basis * J, degree=deg)))
+        elif what == 'boundary':
+            bnd = topo.boundary
+            call = lambda: bnd.integrate([basis * function.J(geom), numpy.sum(x * function.normal(geom)) * function.J(geom)], degree=deg)
+        elif what == 'interfaces':
+            ifaces = topo.interfaces
+            call = lambda: ifaces.integrate([function.jump(basis) * function.J(geom), function.mean(basis) * numpy.sum(x) * function.J(geom)], degree=deg)
+        elif what == 'two_samples':
+            # several integrals over different samples in one evaluation: outer loops of different lengths side by side
+            ints = [topo.integral(basis * J, degree=deg), topo.boundary.integral(numpy.sum(x) * function.J(geom), degree=deg), topo.integral(numpy.sum(x * x) * J, degree=1)]
+            call = lambda: function.eval(ints)
+        elif what == 'system':
+            from nutils import solver
+            u = function.dotarg('u', basis)
+            v = function.dotarg('v', basis)
+            res = topo.integral((numpy.sum(function.grad(u, geom) * function.grad(v, geom)) + u * v + u * u * v - v * numpy.sum(x)) * J, degree=deg)
+            system = solver.System(res, trial='u', test='v')
+            u0 = numpy.arange(1., len(basis) + 1) / 8
+
+            def call():
+                sysargs, xx = system.deconstruct({'u': u0.copy()}, {})
+                jac, r = system.assemble_jacobian_residual(sysargs, xx)
+                return jac.export('dense'), r
+        elif what == 'refined':
+            rtopo = topo.refined_by([0]) if len(topo) else topo
+            rbasis = rtopo.basis({'std': 'h-std', 'spline': 'th-std', 'discont': 'discont'}[btype], degree=prog['degree'])
+            call = lambda: rtopo.integrate([rbasis * J, numpy.sum(x) * J], degree=deg)
+        elif what == 'project':
+            call = lambda: topo.project(numpy.sum(x * x), onto=basis, geometry=geom, degree=deg)
+        else:
+            raise ValueError(what)
         return call, None, ()
     if kind == 'locate':
         from nutils import topology
